@@ -239,3 +239,21 @@ PROPS["C09"] = dict(
     assumptions=["attributes are rebuilt from the same description for every emission (the encoder sorts argument slices in place)"],
     stages=[dict(name="history", run="^TestHistoryIndependence$", quick=8000, thorough=400000, shards=16, timeout_thorough=3000)],
 )
+
+PROPS["C11"] = dict(
+    pkg="c11", level="exploration",
+    technique="model-based stateful property testing (rapid) against a three-state reference machine, plus exhaustive enumeration of short call histories; records classified by the independent decoders",
+    claim=("Histories of SetJSONMode/SetColorMode/WithJSONMode/WithColorMode (zero, one or several booleans) and New(...) with the corresponding "
+           "options over up to 5 loggers of one tree are run against a 3-state machine written from the statement; after every step the "
+           "JSONMode/ColorMode getters of every logger must agree with the model and every probe record must be accepted by exactly the "
+           "model's decoder (JSON object / SGR-coloured text / logfmt line). Every history up to length 5 (quick) or 7 (thorough) over the 8 "
+           "basic calls on a parent/child pair is enumerated."),
+    note="The shape classification is: starts with '{' and decodes as one JSON object = JSON; contains an SGR sequence = colored; otherwise must tokenise as logfmt starting with time=.",
+    rule=("generated: 1-30 steps (set 50%, with/new 20%, probe 30%), boolean lists of length 0-3, then a probe of every logger. Non-trivial: some "
+          "logger visited >= 2 states and >= 2 loggers exist; distinct = the history text. Enumerated: all index vectors; non-trivial: >= 2 states visited."),
+    assumptions=[],
+    stages=[
+        dict(name="enumerated", run="^TestEnumeratedHistories$", quick=1, thorough=1, timeout_thorough=3000),
+        dict(name="generated", run="^TestGeneratedHistories$", quick=8000, thorough=400000, shards=16, timeout_thorough=3000),
+    ],
+)
